@@ -1,6 +1,7 @@
 import XgcmModel.Proofs.Pad
 import XgcmModel.Gen.Axis
 import XgcmModel.Gen.GridDefaults
+import XgcmModel.Gen.Tables
 /-
   C02 — Boundary rule resolution and padding widths are exactly as specified.
   `Gen.periodicTrueBoundary`, `Gen.periodicFalseBoundary`, `Gen.axisDefaultBoundary`,
@@ -204,6 +205,13 @@ example :
     specGridRule (.list ["X"]) (.dict [("X", "extend")]) "X" = some .extend ∧
     specGridRule (.list ["X"]) (.dict [("X", "extend")]) "Y" = some .fill ∧
     specGridRule (.list ["X"]) .none "X" = some .periodic := by
+  decide +kernel
+
+/-- **The boundary words mean what the model's `ext` does** — the mapping from xgcm's rule words to
+    numpy/xarray pad modes, re-extracted from padding.py on every run: periodic = wrap (index modulo the length),
+    fill = constant, extend = edge (clamp); an absent rule falls back to wrap. -/
+theorem pad_modes_pinned :
+    Gen.padModes = [("periodic", "wrap"), ("fill", "constant"), ("extend", "edge"), ("None", "wrap")] := by
   decide +kernel
 
 end Xgcm.C02
